@@ -418,3 +418,31 @@ M('seed2-C09-ensure-ascii-false', ['C09'], MQ, "data = json_dumps(frame.data, se
 M('seed2-C16-bad-file-fails-open', ['C16'], CF, "        except Exception as e:\n            print(f\"Warning: Failed to read allowlist from {path}: {e}\")\n    \n    # Try environment variable", "        except Exception as e:\n            print(f\"Warning: Failed to read allowlist from {path}: {e}\")\n            return None\n    \n    # Try environment variable", ['C16.R3'])
 M('seed2-C14-restore-promotes-tmp', ['C14'], RL, "        if head is not None:\n            if not os.path.exists(head):  # exists() and not isfile() because we want to error on a directory", "        if head is not None:\n            if os.path.isfile(head + '.tmp'):\n                os.rename(head + '.tmp', head)\n\n            if not os.path.exists(head):  # exists() and not isfile() because we want to error on a directory", ['C14.R1'])
 M('seed-C08-propagated-error-announced-clean', ['C08'], F, "                        is_exc = isinstance(sys.exc_info()[1], Exception)\n", "                        is_exc = isinstance(sys.exc_info()[1], Exception) and not isinstance(sys.exc_info()[1], Filter.PropagateError)\n", ['C08.R1', 'C08.R1b'])
+
+# ------------------------------------------------------------------------------------------------------ round 3 seeds
+M('seed3-C01-close-resets-shared-expected-id', ['C01', 'C02', 'C07'], Z, "                            sender.min_recv_id = MSG_ID_INITIAL  # for ephemeral only", "                            if sender_eph:\n                                sender.min_recv_id = MSG_ID_INITIAL\n                            else:\n                                min_recv_id = MSG_ID_INITIAL  # for ephemeral only", ['C01.R10', 'C02.R2', 'C07.R4'])
+M('seed3-C03-unregister-only-on-topic-message', ['C03', 'C06'], Z, "                    if sender.got_all:  # unregister sender from polling if complete because we don't want newer messages", "                    if topic and sender.got_all:  # unregister sender from polling if complete because we don't want newer messages", ['C03.R10', 'C06.R2'])
+M('seed3-C04-balanced-pick-ignores-out_do_send', ['C04', 'C07'], Z, "                        if out_do_send and out_nrequested\n                    ], key=lambda o: o[0]", "                        if out_nrequested\n                    ], key=lambda o: o[0]", ['C04.R8', 'C07.R1'])
+M('seed3-C05-request-eph-mark-never-cleared', ['C04', 'C05'], Z, "                elif 'eph' in msg_req:\n                    del msg_req['eph']\n\n                if not sender.conn:\n                    msg_req['new'] = True\n                elif 'new' in msg_req:\n                    del msg_req['new']", "\n                if not sender.conn:\n                    msg_req['new'] = True\n                else:\n                    msg_req.pop('new', None)", ['C04.R7', 'C05.R6'])
+M('seed3-C06-hello-suppressed-under-balance', ['C06', 'C07'], Z, "                if ret is not None or balance:  # send HELLO only if", "                if ret is not None:  # send HELLO only if", ['C06.R6', 'C07.R5'])
+M('seed3-C07-sender-lock-only-when-partial', ['C07'], Z, "                        if balance:\n                            if topic:  # topic informative message may be late partial", "                        if balance and not sender.got_all:\n                            if topic:  # topic informative message may be late partial", ['C07.R2'])
+M('seed3-C08-obey-error-falls-into-clean', ['C08'], F, "            if reason == 'error':\n                if self.obey_exit & PROP_EXIT_FLAGS['error']:\n                    self.exit('another filter errored', Filter.PropagateError)\n\n            else:  # reason == 'clean'\n                if self.obey_exit & PROP_EXIT_FLAGS['clean']:\n                    self.exit('another filter exited')", "            if reason == 'error' and self.obey_exit & PROP_EXIT_FLAGS['error']:\n                self.exit('another filter errored', Filter.PropagateError)\n\n            elif self.obey_exit & PROP_EXIT_FLAGS['clean']:  # reason == 'clean'\n                self.exit('another filter exited')", ['C08.R2'])
+M('seed3-C09-raw-decode-squeeze', ['C09'], MQ, "Frame(np.frombuffer(msg[1], np.uint8).reshape(xtra[:2] if xtra[2] == 'GRAY' else (xtra[0], xtra[1], 3)), data, xtra[2])", "Frame(np.frombuffer(msg[1], np.uint8).reshape(xtra[0], xtra[1], -1).squeeze(), data, xtra[2])", ['C09.R4'])
+M('raw-decode-inferred-axis', ['C09'], MQ, "Frame(np.frombuffer(msg[1], np.uint8).reshape(xtra[:2] if xtra[2] == 'GRAY' else (xtra[0], xtra[1], 3)), data, xtra[2])", "Frame(np.frombuffer(msg[1], np.uint8).reshape(xtra[:2] if xtra[2] == 'GRAY' else (xtra[0], -1, 3)), data, xtra[2])", ['C09.R4'])
+M('raw-decode-transposed', ['C09'], MQ, "Frame(np.frombuffer(msg[1], np.uint8).reshape(xtra[:2] if xtra[2] == 'GRAY' else (xtra[0], xtra[1], 3)), data, xtra[2])", "Frame(np.frombuffer(msg[1], np.uint8).reshape(xtra[:2] if xtra[2] == 'GRAY' else (xtra[1], xtra[0], 3)), data, xtra[2])", ['C09.R4', 'C09.R1'])
+M('seed3-C10-from_blob-jpg-not-frozen', ['C10'], FR, "            frame.__shapef = (image.shape, format or 'BGR')\n\n            if is_jpg:\n                image.flags.writeable = False\n", "            frame.__shapef = (image.shape, format or 'BGR')\n", ['C10.R2'])
+M('seed3-C12-source-cache-keeps-first-suffix', ['C12'], CLI, "                sources[i] = new_source + source[len(id) :]\n\n                logger.info(f\"add {id}.outputs", "                source_by_id[id] = sources[i] = new_source + source[len(id) :]\n\n                logger.info(f\"add {id}.outputs", ['C12.R2'])
+M('seed3-C13-past-end-reader-rereads-last-file', ['C13'], RL, "            old_timestamp, old_path = old_logfiles[-1].timestamp, None", "            old_timestamp, old_path, old_size = old_logfiles[-1]", ['C13.R5'])
+M('seed3-C14-seek-offset-into-newer-file', ['C14'], RL, "                if logfile.timestamp > seek_timestamp:\n                    break\n\n                if os.path.basename(logfile.path) == seek_fnm:", "                if logfile.timestamp >= seek_timestamp:", ['C14.R5'])
+M('seed3-C15-mask-only-if-urlparse-password', ['C15'], VI, "        self.source        = hide_uri_users_and_pwds(source)", "        self.source        = hide_uri_users_and_pwds(source) if source.count('@') == 1 else source", ['C15.R1'])
+M('seed3-C16-facets-merged-into-shared-default', ['C16'], LN, "            if facets:\n                self.facets = facets\n", "            if facets:\n                self.facets.update(facets)\n", ['C16.R5'])
+M('lineage-facets-setdefault-loop', ['C16'], LN, "            if facets:\n                self.facets = facets\n", "            if facets:\n                for k_, v_ in facets.items():\n                    self.facets[k_] = v_\n", ['C16.R5'])
+M('seed3-C17-flips-return-views', ['C17'], UT, "                frame = Frame(cv2.flip(frame.image, 1), frame)", "                frame = Frame(frame.image[:, ::-1], frame)", ['C17.R4'])
+M('flipy-wrong-axis-copy', ['C17'], UT, "                frame = Frame(cv2.flip(frame.image, 0), frame)", "                frame = Frame(np.ascontiguousarray(frame.image[:, ::-1]), frame)", ['C17.R4'])
+M('seed3-C18-validation-before-start', ['C18'], F, "        # Prepare facets with config and version information\n        facets = dict(config)\n", "        if (sources := config.sources) and not all(is_mq_addr(source) for source in sources):\n            raise ValueError('invalid source, only tcp:// or ipc:// sources allowed')\n\n        # Prepare facets with config and version information\n        facets = dict(config)\n", ['C18.R3'])
+M('start-skipped-on-empty-facets', ['C18'], F, "        if hasattr(self, 'emitter') and self.emitter is not None:\n            self.emitter.emit_start(facets=facets)", "        if hasattr(self, 'emitter') and self.emitter is not None and facets:\n            self.emitter.emit_start(facets=facets)", ['C18.R3'])
+M('recv-D10-shape', ['C01', 'C07'], Z, "else max(state.msg_id, self.prev_id + 1)  # the same state", "else state.msg_id  # the same state", ['C01.R9', 'C07.R6'])
+M('recv-entry-min-instead-of-max', ['C01'], Z, "else max(state.msg_id, self.prev_id + 1)  # the same state", "else min(state.msg_id, self.prev_id + 1)  # the same state", ['C01.R9'])
+M('mask-D11-shape-user-nonempty', ['C15'], UTL, "re_sub_uri_user_and_pwd = re.compile(r'\\b ( [a-zA-Z][a-zA-Z0-9+\\-.]* :// ) [^:@]*:", "re_sub_uri_user_and_pwd = re.compile(r'\\b ( [a-zA-Z][a-zA-Z0-9+\\-.]* :// ) [^:@]+:", ['C15.R3'])
+M('mask-pwd-bounded-length', ['C15'], UTL, ":// [^:@]*: ) [^@]* ( @ [^\\s/?#]+ )', re.VERBOSE)", ":// [^:@]*: ) [^@]{1,64} ( @ [^\\s/?#]+ )', re.VERBOSE)", ['C15.R3'])
+M('imagein-D12-shape', ['C15'], II, "hide_uri_users_and_pwds('file://' + path)", "hide_uri_users_and_pwds(path)", ['C15.R1'])
